@@ -420,7 +420,7 @@ func pipeIDPairing(p *Prog, r *Report, R string) {
 	ap := q.Fn(R, "internal/core", "socket", "addPipe")
 	if ap.OK() {
 		st := ap.Ev("store", "*.added").Arg(0, "true")
-		r.Check(len(st) == 1 && st.AllHeld(pl) && hasAtomSuffix(st[0].Guard, ".closing") , R, "added-set-under-pipe-lock", st.Pos(p), "added = true under the pipe lock, on the !closing edge", "addPipe sets added outside the pipe lock / without testing closing: Close can take the wrong branch and the id is freed twice (panic) or never")
+		r.Check(len(st) == 1 && st.AllHeld(pl) && hasAtomSuffix(st[0].Guard, ".closing"), R, "added-set-under-pipe-lock", st.Pos(p), "added = true under the pipe lock, on the !closing edge", "addPipe sets added outside the pipe lock / without testing closing: Close can take the wrong branch and the id is freed twice (panic) or never")
 	}
 	q.OnlyIn(R, "callers-of-pipeIDs.Free", p.CallersOf("core.(*pipeIDAllocator).Free"), []string{"internal/core.(*socket).remPipe$1", "internal/core.(*pipe).Close$1"}, []string{"internal/core.(*socket).remPipe$1", "internal/core.(*pipe).Close$1"})
 }
@@ -433,7 +433,6 @@ func hasAtomSuffix(g []string, suf string) bool {
 	}
 	return false
 }
-
 
 // allocatorFreshness: the id allocator moves past every id it hands out, so that an id is
 // not handed out again as soon as it is freed.  The raw REP/RESPONDENT sockets route a reply
@@ -455,7 +454,6 @@ func allocatorFreshness(p *Prog, r *Report, R string) {
 	}
 	q.Req(R, "advances-before-return", len(rets) >= 1 && len(adv) >= 1 && rets.DominatedBy(adv), rets.Pos(p), "the counter has moved past the id before it is returned", "Get returns an id without having advanced the counter past it: the id just handed out is the next candidate again, so it is re-used as soon as it is freed (a late reply addressed to the departed connection reaches the newcomer)")
 }
-
 
 var argRe = regexp.MustCompile(`^arg[0-9]+$`)
 
